@@ -2,5 +2,5 @@
 # neutral_patches.sh [dir] : run every check on every verified behaviour-preserving patch under dir (default /verif/neutral); any rc != 0 is a false alarm
 dir=${1:-/verif/neutral}
 cd "$(dirname "$0")/.."
-ls -d $dir/C* | xargs -P 3 -I{} sh -c 'LINES_PER=2 tools/onpatch.sh {}/patch.diff > /tmp/np_$(basename {}).out 2>&1'
-for d in $dir/C*; do id=$(basename $d); h=$(head -1 /tmp/np_$id.out); [ -n "$h" ] && { echo "== $id: $h"; sed -n 2,4p /tmp/np_$id.out | cut -c1-220; }; done
+ls -d $dir/C* | xargs -P 3 -I{} sh -c 'LINES_PER=2 tools/onpatch.sh {}/patch.diff > /root/scratch/np_$(basename {}).out 2>&1'
+for d in $dir/C*; do id=$(basename $d); h=$(head -1 /root/scratch/np_$id.out); [ -n "$h" ] && { echo "== $id: $h"; sed -n 2,4p /root/scratch/np_$id.out | cut -c1-220; }; done
